@@ -362,6 +362,15 @@ def probabilities(ctx, P):
     view = P.view("StateTracker")
     cls, fn = view.method("state_probabilities")
     rets = [x for x in ast.walk(fn) if isinstance(x, ast.Return) and x.value is not None]
+    for _ in range(3):
+        # the normalisation may live in a newly extracted helper whose result is returned
+        v_ = rets[-1].value if rets else None
+        if (isinstance(v_, ast.Call) and isinstance(v_.func, ast.Attribute) and unparse(v_.func.value) == "self" and v_.func.attr not in rules.ANCHOR_METHODS
+                and view.resolve(v_.func.attr) is not None):
+            fn = view.resolve(v_.func.attr)[1]
+            rets = [x for x in ast.walk(fn) if isinstance(x, ast.Return) and x.value is not None]
+        else:
+            break
     dname = unparse(rets[-1].value) if rets else "?"
     tot = [x for x in ast.walk(fn) if isinstance(x, ast.Assign) and isinstance(x.targets[0], ast.Name) and unparse(x.value).replace(" ", "") == "sum(%s.values())" % dname]
     tot_all = [x for x in ast.walk(fn) if isinstance(x, ast.Assign) and tot and unparse(x.targets[0]) == unparse(tot[0].targets[0])]
